@@ -858,6 +858,18 @@ func (s *source) loopFetch() {
 	select {
 	case <-session.ctx.Done():
 		s.fetchState.hardFinish()
+		// Same guard as for noConsumerSession above: we loaded the
+		// session before registering as a worker, so stopSession can
+		// have seen zero workers and returned without waiting for us,
+		// and a new session can already be started. That session's
+		// maybeConsume (and any cursor's allowUsable) saw this loop
+		// still working and only asked it to continue, which our
+		// hardFinish just erased. If the session changed underneath
+		// us, trigger again; otherwise the stop is still in progress,
+		// waits for our worker, and the next session triggers us.
+		if sessionNow := consumer.loadSession(); session != sessionNow {
+			s.maybeConsume()
+		}
 		return
 	default:
 	}
